@@ -11,6 +11,7 @@ import (
 	"log"
 	"os"
 	"runtime"
+	"sort"
 	"strings"
 	"sync"
 	"testing"
@@ -97,20 +98,20 @@ type EntryX struct {
 
 // Case is one exported line: the case and the model's expected abstract results.
 type Case struct {
-	C          C      `json:"c"`
-	T          TBS    `json:"t"`
-	Pre        Pre    `json:"pre"`
-	Build      TBS    `json:"build"`
-	RmPoison   TBS    `json:"rmpoison"`
-	RmSCT      TBS    `json:"rmsct"`
-	Final      TBS    `json:"final"`
-	FinalRmSCT TBS    `json:"finalrmsct"`
-	Clause     string `json:"clause"`
-	Chain      EntryX `json:"chain"`
-	Embedded   EntryX `json:"embedded"`
-	SctChain   []Verdict `json:"sctchain"` // per SCT of c.scts: does it verify for the precertificate route's entry
-	SctEmb     []Verdict `json:"sctemb"`   // ... for the embedded route's entry
-	Mat        *Enc   `json:"mat,omitempty"` // materialization chosen by the harness for the default tags (replay)
+	C          C         `json:"c"`
+	T          TBS       `json:"t"`
+	Pre        Pre       `json:"pre"`
+	Build      TBS       `json:"build"`
+	RmPoison   TBS       `json:"rmpoison"`
+	RmSCT      TBS       `json:"rmsct"`
+	Final      TBS       `json:"final"`
+	FinalRmSCT TBS       `json:"finalrmsct"`
+	Clause     string    `json:"clause"`
+	Chain      EntryX    `json:"chain"`
+	Embedded   EntryX    `json:"embedded"`
+	SctChain   []Verdict `json:"sctchain"`      // per SCT of c.scts: does it verify for the precertificate route's entry
+	SctEmb     []Verdict `json:"sctemb"`        // ... for the embedded route's entry
+	Mat        *Enc      `json:"mat,omitempty"` // materialization chosen by the harness for the default tags (replay)
 }
 
 func (c *Case) allTBS() []*TBS {
@@ -280,13 +281,24 @@ func (w *world) makeSCT(kind SctK, idx int, entry ref.Entry, wrongIKH []byte) *s
 
 var plainG = SctK{"LOG1", "exact", "this", false}
 
+// epNames: the entry points in a fixed order (harnessEPs is cross-checked against the specification's table).
+var epNames = func() []string {
+	var out []string
+	for n := range harnessEPs {
+		out = append(out, n)
+	}
+	sort.Strings(out)
+	return out
+}()
+
 // ---------------------------------------------------------------- running one case
 
 type runner struct {
-	w   *world
-	rep *vh.Report
-	cs  *Case
-	idx int
+	w      *world
+	rep    *vh.Report
+	cs     *Case
+	idx    int
+	single bool // the only case of the run (replay of a violation): nothing is sampled
 	// for the replay record
 	ders map[string]string
 }
@@ -598,13 +610,16 @@ func (r *runner) run() {
 			chainC = append(chainC, h.caC)
 		}
 		chainC = append(chainC, h.rootC)
-		if !bytes.Equal(preC.RawTBSCertificate, tDER) {
-			panic("harness: RawTBSCertificate is not the TBS that was signed")
+		if !bytes.Equal(preC.RawTBSCertificate, tDER) || !bytes.Equal(preC.Raw, preDER) {
+			// (clause OwnOctetsOnly: the reader reports another certificate than the one handed in)
+			r.violate("readback:ParseCertificate:raw:precert", "x509.ParseCertificate(precertificate): Raw / RawTBSCertificate are not the octets handed in")
+			chainC = nil
+		} else {
+			r.guard("MerkleTreeLeafFromChain", func() {
+				leaf, err := ct.MerkleTreeLeafFromChain(chainC, ct.PrecertLogEntryType, ts0)
+				r.checkLeaf("MerkleTreeLeafFromChain", leaf, err, wantChain, chainOK, ts0)
+			})
 		}
-		r.guard("MerkleTreeLeafFromChain", func() {
-			leaf, err := ct.MerkleTreeLeafFromChain(chainC, ct.PrecertLogEntryType, ts0)
-			r.checkLeaf("MerkleTreeLeafFromChain", leaf, err, wantChain, chainOK, ts0)
-		})
 	}
 	r.guard("MerkleTreeLeafFromRawChain", func() {
 		leaf, err := ct.MerkleTreeLeafFromRawChain(raws(chainDER...), ct.PrecertLogEntryType, ts0)
@@ -764,6 +779,27 @@ func (r *runner) run() {
 			r.sameSCTs("ParseSCTsFromCertificate", got, err, scts)
 		}
 	})
+	// ... by every entry point of the specification (Precert.tla EntryPoints, clause OwnOctetsOnly), the final
+	// certificate standing first, in the middle or last among its issuer and the root
+	if embOK {
+		fin := &rbCert{class: "sct", label: "final", der: finalDER, tbs: fDER, version: 3, keyType: cs.T.Key,
+			list: m.SCTList, scts: scts, alone: finalC, noExts: len(cs.Final.Exts) == 0}
+		for _, e := range cs.Final.Exts {
+			oid, _ := m.extValue(e)
+			fin.extOIDs = append(fin.extOIDs, oid)
+		}
+		ca := &rbCert{class: "exts", label: "issuer", der: h.ca, tbs: h.caC.RawTBSCertificate, alone: h.caC, version: 3}
+		root := &rbCert{class: "exts", label: "root", der: h.root, tbs: h.rootC.RawTBSCertificate, alone: h.rootC, version: 3}
+		seqs := [][]*rbCert{{fin, ca, root}, {ca, fin, root}, {root, ca, fin}}
+		certs := seqs[r.idx%3]
+		// (a third of the entry points per case, every entry point in a third of the cases; all of them when a
+		// single case is replayed)
+		for i, name := range epNames {
+			if r.single || (i+r.idx/3)%3 == 0 {
+				readBack(name, harnessEPs[name], certs, nil, r.rep, r.w.keys, r.violate)
+			}
+		}
+	}
 	r.rep.Eval(r.key())
 }
 
@@ -801,21 +837,27 @@ func (r *runner) key() string {
 }
 
 func (r *runner) sameSCTs(site string, got []*ct.SignedCertificateTimestamp, err error, want []*sctRec) {
+	compareSCTs(r.w.keys, site, got, err, want, r.violate)
+}
+
+// compareSCTs: the parsed SCTs are the embedded ones, element for element (log, timestamp, extensions, algorithms,
+// signature octets).
+func compareSCTs(keys *Keys, site string, got []*ct.SignedCertificateTimestamp, err error, want []*sctRec, viol func(fp, what string)) {
 	if err != nil {
-		r.violate(site+":rejected", site+": "+err.Error())
+		viol(site+":rejected", site+": "+err.Error())
 		return
 	}
 	if len(got) != len(want) {
-		r.violate(site+":len", fmt.Sprintf("%s returns %d SCTs, %d were embedded", site, len(got), len(want)))
+		viol(site+":len", fmt.Sprintf("%s returns %d SCTs, %d were embedded", site, len(got), len(want)))
 		return
 	}
 	for i, g := range got {
 		w := want[i]
-		id, _, _ := ref.KeyID(r.w.keys.Log(w.log).Public())
+		id, _, _ := ref.KeyID(keys.Log(w.log).Public())
 		_, sa, sig, _ := ref.ParseDigitallySigned(w.ds)
 		if g == nil || g.SCTVersion != ct.V1 || !bytes.Equal(g.LogID.KeyID[:], id) || g.Timestamp != w.ts || !bytes.Equal(g.Extensions, w.ext) ||
 			byte(g.Signature.Algorithm.Hash) != w.hash || byte(g.Signature.Algorithm.Signature) != sa || !bytes.Equal(g.Signature.Signature, sig) {
-			r.violate(site+":element", fmt.Sprintf("%s: element %d is not the %d-th embedded SCT", site, i, i))
+			viol(site+":element", fmt.Sprintf("%s: element %d is not the %d-th embedded SCT", site, i, i))
 			return
 		}
 	}
@@ -897,7 +939,7 @@ func runAll(t *testing.T, path string, rep *vh.Report, keys *Keys, ver map[strin
 				defer wg.Done()
 				w := &world{keys: keys, cache: map[string]*hier{}, ver: ver}
 				for i := range ch {
-					r := &runner{w: w, rep: rep, cs: &cases[i], idx: i}
+					r := &runner{w: w, rep: rep, cs: &cases[i], idx: i, single: len(cases) == 1}
 					func() {
 						defer func() {
 							if p := recover(); p != nil {
@@ -977,7 +1019,7 @@ func TestReplay(t *testing.T) {
 		for i := range canaries {
 			crep := vh.NewReport("canary", "")
 			w := &world{keys: keys, cache: map[string]*hier{}, ver: ver}
-			r := &runner{w: w, rep: crep, cs: &canaries[i], idx: i}
+			r := &runner{w: w, rep: crep, cs: &canaries[i], idx: i, single: true}
 			flagged := false
 			func() {
 				defer func() {
